@@ -287,7 +287,7 @@ pub fn run_enumerated(ctx: &mut Ctx, bases: &[Base], weight: &dyn Fn(FieldKind) 
     ctx.extra.insert("word_substitutions".into(), serde_json::json!(idx));
     // ---- pairwise inside a box and with the parent's size field ----
     ctx.stage("pairwise");
-    let stride = ctx.pick(16u64, 1u64);
+    let stride = ctx.pick(4u64, 1u64);
     let mut idx = 0u64;
     for (bi, b) in bases.iter().enumerate() {
         // group fields by box (same box_end & depth & boxtype)
